@@ -87,11 +87,12 @@ func init() {
 
 	// rvparse <32|64> <exts: i, im, ia, ima> <addr> <hex bytes>
 	//   => err:short | err:unknown | ok <name> <type> <bytelen> <text> <effects>
-	register("rvparse", func(t *tokens) string {
-		variant := t.next()
-		exts := t.next()
-		addr := t.uint()
-		bs := t.hex()
+	rvParse := func(variant, exts string, addr uint64, bs []byte) (res string) {
+		defer func() {
+			if r := recover(); r != nil {
+				res = "PANIC"
+			}
+		}()
 		p := rvParser(variant, exts)
 		ins, err := p.Parse(model.Addr(addr), bs)
 		if err != nil {
@@ -102,5 +103,22 @@ func init() {
 		}
 		return fmt.Sprintf("ok %s %d %d %s %s", fmtText(ins.Details.Name()), ins.Type, ins.ByteLen,
 			fmtText(ins.Details.String()), fmtEffects(ins.Effects))
+	}
+	register("rvparse", func(t *tokens) string {
+		variant := t.next()
+		exts := t.next()
+		addr := t.uint()
+		bs := t.hex()
+		return rvParse(variant, exts, addr, bs)
+	})
+	// rvpair <32|64> <exts> <addr> <hex1> <hex2>: two words at the same address
+	//   => <rvparse result 1> || <rvparse result 2>
+	register("rvpair", func(t *tokens) string {
+		variant := t.next()
+		exts := t.next()
+		addr := t.uint()
+		b1 := t.hex()
+		b2 := t.hex()
+		return rvParse(variant, exts, addr, b1) + " || " + rvParse(variant, exts, addr, b2)
 	})
 }
